@@ -138,9 +138,8 @@ def node_edits(base, rng, cap=None, for_model=False):
                 if for_model:
                     if all(specs[i] is not None for i in idx):
                         out.append(('args %s %s' % (p, ','.join(specs[i] for i in idx) or '_'), nt))
-                else:
-                    out.append(('aop %s perm %s' % (p, ','.join(map(str, idx)) or '_'), nt))
-            if not for_model:
+                out.append(('aop %s perm %s' % (p, ','.join(map(str, idx)) or '_'), nt))
+            if True:        # the in-place / slice / put-back forms: the model answers them as .setArgs of the list result
                 out.append(('aop %s rev' % p, twin or n >= 2))
                 out.append(('aop %s rs' % p, twin or n >= 2))
                 for i, j in ([(0, k) for k in range(n + 1)] if full else [(0, rng.randint(0, n))]):
@@ -206,7 +205,10 @@ def correspondence(ctx):
     r.rule = ('edit request (one op; answer = str(soup) after the op or FAIL, plus the canonical final tree) model vs the real '
               'TexNode API on %d hand-written documents + lib_edit.gen_doc documents: %s, node.name = one of %s; '
               'node.args = TexArgs(..) with the reversal, every prefix, every slice and permutations of its own arguments '
-              '(as re-parsed copies) and with foreign arguments; node.string = one of %r on %s (refusals must be refused by '
+              '(as re-parsed copies) and with foreign arguments; the same through the list itself (request aop: '
+              'node.args.reverse(), node.args = node.args[::-1] / [i:j] / TexArgs([node.args[i] ..]), and the own list put back '
+              'after nothing / reverse / pop(i) / insert(i, group) / append(group) in place), which the model answers as '
+              '.setArgs of the result of the operation on a plain list (lean/TexSoupModel/ArgsEdit.lean); node.string = one of %r on %s (refusals must be refused by '
               'the model too); non-trivial = the target has a textual twin, another node already carries the new name, or '
               'the node has at least two arguments'
               % (len(FIXED), 'every command/environment' if cap is None else 'up to %d sampled nodes per document' % cap,
